@@ -64,10 +64,12 @@ func checkC05(c *Ctx, r *Report) {
 	{
 		tmp := newReport(r.Prop, r.Tier)
 		c06Grouping(c, tmp)
-		r.instance("R5.8", copyItems(tmp, r, "R6.2", "R5.8", "batch"))
-		r.floor("R5.8", 1)
+		r.instance("R5.8", copyItems(tmp, r, "R6.2", "R5.8"))
+		r.floor("R5.8", 2)
 	}
 	r.floor("R5.7", 8)
+	c05Validate(c, r)
+	r.floor("R5.9", 1)
 	c05FullRange(c, r, "R5.7")
 	c05Loops(c, r)
 	c05SlotMerge(c, r)
@@ -317,7 +319,8 @@ func c05Plumbing(c *Ctx, r *Report) {
 	check(c.fnMust("", "BuilderRequest.AsRegisters"), "AsRegisters", []string{".StartAddress"}, "AsRegisters receives the request's StartAddress")
 	check(c.fnMust("", "BuilderRequest.extractCoilFields"), "IsCoilSet", []string{".StartAddress", ".Address"}, "IsCoilSet receives (request start address, field address) in this order")
 	for _, tn := range []string{"ReadHoldingRegistersResponse", "ReadInputRegistersResponse", "ReadWriteMultipleRegistersResponse"} {
-		check(c.fnMust("packet", tn+".AsRegisters"), "NewRegisters", []string{".Data", "requestStartAddress"}, "NewRegisters receives (payload, request start address)")
+		asr := c.fnMust("packet", tn+".AsRegisters")
+		check(asr, "NewRegisters", []string{".Data", asr.Params[len(asr.Params)-1].Name()}, "NewRegisters receives (payload, request start address)")
 	}
 }
 
@@ -705,6 +708,14 @@ func checkC06(c *Ctx, r *Report) {
 			copyItems(tmp, r, "R1.1", "R6.5")
 		}
 		r.floor("R6.5", 8)
+	}
+	// R6.6: the slot a field occupies in a batch is the number of registers its type really
+	// takes: registerSize agrees with the accessor table for every type constant (C05 R5.1)
+	{
+		tmp := newReport(r.Prop, r.Tier)
+		c05Tables(c, tmp)
+		r.instance("R6.6", copyItems(tmp, r, "R5.1", "R6.6"))
+		r.floor("R6.6", 13)
 	}
 	r.floor("R6.4", 8)
 	c05FullRange(c, r, "R6.4")
@@ -1271,6 +1282,90 @@ func errFromCtor(split *ssa.Function, v ssa.Value, depth int) bool {
 			n++
 		}
 		return n > 0
+	}
+	return false
+}
+
+// c05Validate: R5.9 — every well-formed field is accepted by Field.Validate: under the premise
+// "server address set, type one of the defined constants, bit 0..15, string length >= 1" none of
+// its error returns is reachable (whatever address the field has: a field may end at the very
+// last register 65535).
+func c05Validate(c *Ctx, r *Report) {
+	fn := c.fnOpt("", "*Field.Validate")
+	r.instance("R5.9", 1)
+	if fn == nil {
+		r.undecided("R5.9", "modbus.Field.Validate", "Field.Validate not found", "-")
+		return
+	}
+	id := fnID(fn)
+	r.funcs[id] = true
+	an := &Analysis{ctx: c, u: newUniverse(), top: fn, logCalls: true}
+	fr := an.newFrame(fn, nil, nil)
+	rcv := "*" + fn.Params[0].Name()
+	addr := affSym(an.u.sym(rcv+".Address", 0, 65535))
+	typ := affSym(an.u.sym(rcv+".Type", 0, 255))
+	bit := affSym(an.u.sym(rcv+".Bit", 0, 255))
+	ln := affSym(an.u.sym(rcv+".Length", 0, 255))
+	// the defined type constants
+	var maxT int64
+	for _, m := range c.pkg("").Members {
+		if k, ok := m.(*ssa.NamedConst); ok {
+			if n, ok := k.Type().(*types.Named); ok && n.Obj().Name() == "FieldType" {
+				if v, exact := constant.Int64Val(k.Value.Value); exact && v > maxT {
+					maxT = v
+				}
+			}
+		}
+	}
+	prem := Conj{atomGE(typ, affConst(1)), atomLE(typ, affConst(maxT)), atomLE(bit, affConst(15)), atomGE(ln, affConst(1))}
+	fr.run(DNF{prem})
+	// a well-formed field also fits the address space: address + its register count <= 65536
+	// (expressed with the result of registerSize where Validate calls it)
+	var fits []Atom
+	regSize := c.fnOpt("", "*Field.registerSize")
+	for _, cr := range an.calls {
+		if cr.callee == regSize && regSize != nil {
+			if sz, ok := cr.res.(AInt); ok {
+				fits = append(fits, atomLE(addr.add(sz.a), affConst(65536)))
+			}
+		}
+	}
+	bad := ""
+	nerr := 0
+	for i := range fr.returns {
+		rs := &fr.returns[i]
+		nf := fr.nilness(rs.vals[0])
+		if nf.kind == fConst && nf.b {
+			continue
+		}
+		nerr++
+		for _, cj := range dnfAnd(rs.state, nf.dnf(true)) {
+			cj = cj.with(fits...)
+			// the only remaining legitimate reason: an empty server address (a string comparison the
+			// engine keeps as an opaque condition)
+			if infeasible(cj) || mentionsKey(cj, "ServerAddress") {
+				continue
+			}
+			bad = fmt.Sprintf("error return at %s reachable with %s", c.pos(rs.instr.Pos()), truncate(cj.String(), 200))
+		}
+	}
+	if bad == "" {
+		r.ok("R5.9", id, fmt.Sprintf("a field with a defined type (1..%d), bit 0..15 and (for strings) a length is accepted at every address: none of the %d error returns is reachable for it", maxT, nerr), c.pos(fn.Pos()), true)
+	} else {
+		r.fail("R5.9", id, "Validate rejects a well-formed field (the whole field set is then refused and no field is reported)", c.pos(fn.Pos()), bad, "validate-rejects-valid")
+	}
+}
+
+func mentionsKey(cj Conj, part string) bool {
+	for _, a := range cj {
+		if a.op != opEQ {
+			continue // only "the comparison holds" counts as that reason
+		}
+		for _, t := range a.a.terms {
+			if strings.Contains(t.s.key, part) {
+				return true
+			}
+		}
 	}
 	return false
 }
